@@ -264,7 +264,7 @@ func randomPhase(c *Ctx, mode string) []wstep {
 			case "overflow":
 				steps = append(steps, wstep{Kind: 14, K: 220 + c.Rng.Intn(100)})
 			case "frames":
-				steps = append(steps, wstep{Kind: 4 + c.Rng.Intn(2)})
+				steps = append(steps, wstep{Kind: []int{4, 5, 9, 16}[c.Rng.Intn(4)]})
 			case "closes", "mixed":
 				steps = append(steps, wstep{Kind: 2})
 			default:
@@ -601,6 +601,7 @@ func runFail(c *Ctx, r *failRun, seed int64, level int) {
 				applyStep(srv, wstep{Kind: 4}, new(int))
 				applyStep(srv, wstep{Kind: 5}, new(int))
 				applyStep(srv, wstep{Kind: 9}, new(int))
+				applyStep(srv, wstep{Kind: 16}, new(int))
 			}
 			ct.pert.Barrier()
 		}
